@@ -70,10 +70,15 @@ def first_diff(a, b):
     return {"index": min(len(a), len(b)), "len1": len(a), "len2": len(b)}
 
 
+KF_HASHSEED = "C13:fuzzing-phase:negative-mode-values-depend-on-PYTHONHASHSEED"
+
+
 def signature(cfg, kind):
     ph = "+".join(cfg["phases"])
     if kind == "process" and cfg["phases"] == ["COVERAGE"] and "NEGATIVE" in cfg["modes"]:
         return KF_COVERAGE
+    if kind == "process" and "FUZZING" in cfg["phases"] and "NEGATIVE" in cfg["modes"]:
+        return KF_HASHSEED
     return f"C13:{kind}:requests-differ-for-the-same-seed:{ph}:{'+'.join(cfg['modes'])}"
 
 
@@ -106,13 +111,21 @@ def run(chk):
         cfg = {"raw": c["raw"], "phases": c["phases"], "modes": c["modes"], "workers": 1, "max_examples": 4,
                "seed": rng.randint(1, 10**6), "steps": 3}
         jobs.append((c["name"], cfg))
+    # corpus: the recorded witness of the hash-seed dependence (F19b) runs first on every run
+    jobs.insert(0, ("enum-pattern", {"raw": RAWS["enum-pattern"], "phases": ["FUZZING"], "modes": ["NEGATIVE"], "workers": 1,
+                                     "max_examples": 6, "seed": 55072, "steps": 3}))
     # fresh processes, two hash seeds each (+ a worker-count variant)
     with ThreadPoolExecutor(max_workers=8) as ex:
         futs = []
         for name, cfg in jobs:
-            futs.append((name, cfg, ex.submit(child, cfg, 1), ex.submit(child, cfg, 2),
-                         ex.submit(child, {**cfg, "workers": rng.choice([2, 4])}, 3)))
-        results = [(n, c, a.result(), b.result(), w.result()) for n, c, a, b, w in futs]
+            # the worker-count variant runs under the SAME hash seed as the reference run, so that a difference is
+            # attributable to the workers; the second and third processes vary the hash seed
+            futs.append((name, cfg, ex.submit(child, cfg, 1), ex.submit(child, cfg, 5), ex.submit(child, cfg, 13),
+                         ex.submit(child, {**cfg, "workers": rng.choice([2, 4])}, 1)))
+        results = []
+        for n, c, a, b, b2, w in futs:
+            ra, rb, rb2 = a.result(), b.result(), b2.result()
+            results.append((n, c, ra, rb if rb["requests"] != ra["requests"] else rb2, w.result()))
     for name, cfg, a, b, w in results:
         key = [name, cfg["phases"], cfg["modes"], cfg["seed"]]
         chk.case("process:double-run", key=key, nontrivial=bool(a["requests"]),
@@ -130,7 +143,7 @@ def run(chk):
                 return Counter((m, p.split("?")[0], json.dumps([m, p, h, body])) for m, p, h, body in rs)
             if per_op(a["requests"]) != per_op(w["requests"]):
                 d = (per_op(a["requests"]) - per_op(w["requests"])) + (per_op(w["requests"]) - per_op(a["requests"]))
-                sig = signature(cfg, "process") if a["requests"] != b["requests"] else \
+                sig = signature(cfg, "process") if False else \
                     f"C13:workers:per-operation-requests-differ-from-one-worker:{'+'.join(cfg['phases'])}"
                 chk.violation(sig, "the multiset of requests per operation differs between 1 worker and several workers",
                               {"schema": name, "config": small, "difference": list(d.items())[:4]})
